@@ -94,6 +94,19 @@ def check(tier, seed):
                         v = F.in_range_value(rng, ft)
                         setattr(fr.f, fn, F.py_value(v))
                     add(fr, cached, {'message': name, 'state': 'edited', 'payload_hex': C.hexs(pay)}, name + '/edited')
+                if e['kind'] == 'counted':
+                    # the count field of a decoded frame assigned other in-range values (fewer / more than the blocks present)
+                    hdr_names = [n_ for n_, _ in e['hdr']]
+                    ofs = sum(F.tok_width(t) for _, t in e['hdr'][:hdr_names.index(e['count'])])
+                    n_blocks = pay[ofs]
+                    for v in sorted({0, max(0, n_blocks - 1), n_blocks + 1, 255} - {n_blocks}):
+                        if v > 255:
+                            continue
+                        fr2 = cls.construct(bytearray(pay))
+                        cached2 = {it.name: it.value for it in fr2.f._fields.values() if isinstance(it.value, int)}
+                        setattr(fr2.f, e['count'], v)
+                        add(fr2, cached2, {'message': name, 'state': 'edited', 'field': e['count'], 'decoded_blocks': n_blocks, 'assigned': v,
+                                           'payload_hex': C.hexs(pay)}, name + '/count-edited')
         # every table-rendered field through all byte values
         n_table = 0
         for name, e in sorted(mt.items()):
